@@ -20,6 +20,10 @@ from . import types as T
 from .engine import SV, Exec, sv_bool, sv_real
 
 v_last = z3.Function("v_last", A.ArrV, S.REAL)
+v_first = z3.Function("v_first", A.ArrV, S.REAL)
+v_linspace = z3.Function("v_linspace", S.REAL, S.REAL, S.INT, A.ArrV)
+v_insert0 = z3.Function("v_insert0", A.ArrV, S.REAL, A.ArrV)  # np.insert(a, 0, x)
+v_opaque = z3.Function("v_opaque", S.INT, A.ArrV, A.ArrV)  # shape-only transformations of other arrays
 v_keep_ge = z3.Function("v_keep_ge", A.ArrV, S.REAL, A.ArrV)  # a[a >= x]
 v_drop_ge = z3.Function("v_drop_ge", A.ArrV, S.REAL, A.ArrV)  # a[~(a >= x)]
 _USED = "numpy time-point vectors: ghost last element; np.array copies; a[a >= x] keeps the last element when it is >= x; (a - r)[-1] = a[-1] - r (pyvc/lib_tp.py)"
@@ -37,10 +41,50 @@ def _axioms(ex: Exec) -> None:
     x, r = z3.Real("x!tp"), z3.Real("r!tp")
     ex.assume(z3.ForAll([a, x], z3.Implies(v_last(a) >= x, v_last(v_keep_ge(a, x)) == v_last(a)), patterns=[v_keep_ge(a, x)]))
     ex.assume(z3.ForAll([a, r], v_last(A.vsub(a, A.vec_of(S.mk_real(r)))) == v_last(a) - r, patterns=[A.vsub(a, A.vec_of(S.mk_real(r)))]))
+    n = z3.Int("n!tp")
+    lo, hi = z3.Real("lo!tp"), z3.Real("hi!tp")
+    # np.linspace(lo, hi, n): starts at lo; ends at hi when it has at least two points, at lo with one
+    ex.assume(z3.ForAll([lo, hi, n], z3.Implies(n >= 1, v_first(v_linspace(lo, hi, n)) == lo), patterns=[v_linspace(lo, hi, n)]))
+    ex.assume(z3.ForAll([lo, hi, n], z3.Implies(n >= 2, v_last(v_linspace(lo, hi, n)) == hi), patterns=[v_linspace(lo, hi, n)]))
+    ex.assume(z3.ForAll([lo, hi, n], z3.Implies(n == 1, v_last(v_linspace(lo, hi, n)) == lo), patterns=[v_linspace(lo, hi, n)]))
+    ex.assume(z3.ForAll([a, x], z3.And(v_first(v_insert0(a, x)) == x, v_last(v_insert0(a, x)) == v_last(a)), patterns=[v_insert0(a, x)]))
     lib.used(ex, _USED)
 
 
 def _module_call(ex: Exec, dotted: str, node: ast.Call):
+    if _on(ex) and dotted in ("np.linspace", "numpy.linspace") and len(node.args) >= 3:
+        _axioms(ex)
+        lo, hi, n = (ex.eval(a) for a in node.args[:3])
+        lib.used(ex, "np.linspace(lo, hi, n): first element lo; last element hi for n >= 2 (lo for n == 1); non-empty vectors only")
+        return A.new_arr(ex, v_linspace(ex.num(lo), ex.num(hi), S.un_int(n.t)))
+    if _on(ex) and dotted in ("np.insert", "numpy.insert") and len(node.args) == 3 and isinstance(node.args[1], ast.Constant) and node.args[1].value == 0:
+        _axioms(ex)
+        a0 = ex.eval(node.args[0])
+        x = ex.eval(node.args[2])
+        lib.used(ex, "np.insert(a, 0, x): x becomes the first element, the last element stays (non-empty a)")
+        return A.new_arr(ex, v_insert0(A.arrv(ex, a0), ex.num(x)))
+    if _on(ex) and dotted in ("np.atleast_1d", "numpy.atleast_1d") and len(node.args) == 1:
+        a0 = ex.eval(node.args[0])
+        return A.new_arr(ex, A.arrv(ex, a0))  # a vector stays the vector it is
+    if _on(ex) and dotted in ("np.atleast_2d", "numpy.atleast_2d") and len(node.args) == 1:
+        a0 = ex.eval(node.args[0])
+        return A.new_arr(ex, v_opaque(z3.IntVal(2), A.arrv(ex, a0)))
+    if _on(ex) and dotted in ("spi.solve_ivp", "scipy.integrate.solve_ivp"):
+        _axioms(ex)
+        kw = {k.arg: ex.eval(k.value) for k in node.keywords}
+        for a0 in node.args:
+            ex.eval(a0)
+        lib.used(ex, "scipy.integrate.solve_ivp(..., t_eval=T): an object with a boolean `success`; on success its `.t` holds exactly the points of T (that `.y` is the ODE solution to tolerance is not modelled)")
+        oid = ex.new_obj("OdeResult")
+        ok = ex.fresh("ivp_ok", S.BOOL)
+        ex.wr("fld:success", oid, S.mk_bool(ok))
+        tarr = A.new_arr(ex, ex.fresh("ivp_t", A.ArrV))
+        yarr = A.new_arr(ex, ex.fresh("ivp_y", A.ArrV))
+        if "t_eval" in kw:
+            ex.assume(z3.Implies(ok, A.arrv(ex, tarr) == A.arrv(ex, kw["t_eval"])))
+        ex.wr("fld:t", oid, tarr.t)
+        ex.wr("fld:y", oid, yarr.t)
+        return SV(S.mk_ref(oid), T.obj("OdeResult"))
     if dotted in ("np.array", "numpy.array") and _on(ex) and node.args and not isinstance(node.args[0], ast.List):
         _axioms(ex)
         v = ex.eval(node.args[0])
@@ -63,6 +107,8 @@ def _subscript(ex: Exec, base: SV, key: SV):
             k = z3.simplify(S.un_int(key.t))
             if z3.is_int_value(k) and k.as_long() == -1:
                 return sv_real(v_last(A.arrv(ex, base)))
+            if z3.is_int_value(k) and k.as_long() == 0:
+                return sv_real(v_first(A.arrv(ex, base)))
         if key.ty.kind == "raw" and isinstance(key.aux, tuple) and key.aux[:1] == ("mask",):
             _, arr_t, x, neg = key.aux
             f = v_drop_ge if neg else v_keep_ge
@@ -107,3 +153,18 @@ lib.METHOD_HOOKS.append(_method)
 from . import spec as _spec  # noqa: E402
 
 _spec._TABLE.update({"v_last": lambda ex, node: sv_real(v_last(A.arrv(ex, ex.eval(node.args[0]))))})
+
+
+def _attr(ex: Exec, base: SV, name: str):
+    if _on(ex) and A.is_arr(base) and name == "T":
+        return A.new_arr(ex, v_opaque(z3.IntVal(1), A.arrv(ex, base)))
+    if _on(ex) and base.ty.kind == "obj" and base.ty.cls == "OdeResult" and name in ("success", "t", "y"):
+        t = ex.rd("fld:" + name, ex.ref_id(base))
+        if name == "success":
+            return SV(S.mk_bool(S.un_bool(t)), T.BOOL)
+        return SV(t, T.obj("ndarray"))
+    return None
+
+
+lib.ATTR_HOOKS.append(_attr)
+_spec._TABLE.update({"v_first": lambda ex, node: sv_real(v_first(A.arrv(ex, ex.eval(node.args[0]))))})
